@@ -14,6 +14,7 @@ hc.quiet_logging()
 
 
 NCP = @@NCP@@        # sum(LENS1) + sum(LENS2)
+PAD = @@PAD@@        # concrete filler appended to every non-empty doc line (long lines)
 
 
 def check(cps: $$CPS$$) -> bool:
@@ -22,8 +23,8 @@ def check(cps: $$CPS$$) -> bool:
     post: _
     """
     pc = hc.Pieces(cps)
-    t = [pc.take(n) for n in LENS1]
-    u = [pc.take(n) for n in LENS2]
+    t = [pc.take(n) + (("y" * PAD) if (PAD and n) else "") for n in LENS1]
+    u = [pc.take(n) + (("y" * PAD) if (PAD and n) else "") for n in LENS2]
     for x in t + u:
         if "]]" in x:
             return True          # outside the canonical form
